@@ -50,7 +50,7 @@ impl Client {
     #[verifier::external_body]
     pub fn get<U: IntoUrl>(&self, url: U) -> (r: RequestBuilder)
         requires
-            c12_request(url.url_text()), // @cl:C12.get.request_is_exactly_claimed_name_and_hash
+            c12_request(url.url_text()), // @cl:C12+C01.get.request_is_exactly_claimed_name_and_hash
     { unimplemented!() }
 }
 #[verifier::external_body] pub fn http_client() -> &'static Client { unimplemented!() }
